@@ -67,7 +67,8 @@ impl EventEncoder for TracesEventEncoder {
                     evt.props(),
                 ),
                 kind: SpanKind::Unspecified,
-            }),
+            })
+            .ok()?,
         })
     }
 }
@@ -81,12 +82,12 @@ impl RequestEncoder for TracesRequestEncoder {
         resource: Option<&EncodedPayload>,
         items: &EncodedScopeItems,
     ) -> Result<EncodedPayload, Error> {
-        Ok(E::encode(ExportTraceServiceRequest {
+        E::encode(ExportTraceServiceRequest {
             resource_spans: &[ResourceSpans {
                 resource: &resource,
                 scope_spans: &EncodedScopeSpans(items),
             }],
-        }))
+        })
     }
 }
 
